@@ -18,6 +18,37 @@ def o_conform(src, case):
     return None
 
 
+@C.oracle('name_spec')
+def o_name_spec(src, value):
+    """the public names say what they encode: Int<bits><u|s><b|l|n>, Float<bits><b|l|n> -- compared with int.to_bytes / struct.pack
+    read off the NAME (the native order from sys.byteorder), not off the object the name is bound to"""
+    import re, sys
+    m = re.fullmatch(r'Int(\d+)([us])([bln])', src)
+    c = C.get(src)
+    if m:
+        n, signed, order = int(m.group(1)) // 8, m.group(2) == 's', {'b': 'big', 'l': 'little', 'n': sys.byteorder}[m.group(3)]
+        want = value.to_bytes(n, order, signed=signed)
+        got = c.build(value)
+        if got != want:
+            return 'build(%d) = %r, the name says %r' % (value, got, want)
+        back = c.parse(want)
+        if back != value:
+            return 'parse(%r) = %r, the name says %d' % (want, back, value)
+        if c.sizeof() != n:
+            return 'sizeof = %r, the name says %d' % (c.sizeof(), n)
+        return None
+    m = re.fullmatch(r'Float(\d+)([bln])', src)
+    if m:
+        code = {16: 'e', 32: 'f', 64: 'd'}[int(m.group(1))]
+        pre = {'b': '>', 'l': '<', 'n': '='}[m.group(2)]
+        want = struct.pack(pre + code, value)
+        got = c.build(value)
+        if got != want:
+            return 'build(%r) = %r, the name says %r' % (value, got, want)
+        return None
+    return None
+
+
 def int_cases(rng, tier):
     cases = []
     names = [(nm, n, s, None) for nm, n, s in G.INT_NAMES]
@@ -140,6 +171,15 @@ def run(tier, seed):
     for label, cases in (('ints', int_cases(rng, tier)), ('varint', varint_cases(rng, tier)),
                          ('floats', float_cases(rng, tier)), ('composites', misc_cases(rng, tier))):
         acc.corr(cases, label)
+    # the names against their spelling
+    for nm, n, sg in G.INT_NAMES:
+        lo, hi = G.rng_range(sg, n)
+        for v in sorted(set([lo, hi, 0, 1, hi // 3, lo + 1, 0x0102030405060708 % (hi + 1)] + [G.edge_int(rng, lo, hi) for _ in range(6)])):
+            acc.check('name_spec', nm, value=v)
+    for nm, n, code in G.FLOAT_NAMES:
+        if nm.startswith('Float'):
+            for v in (0.0, 1.0, -2.5, 0.333251953125, 65504.0):
+                acc.check('name_spec', nm, value=v)
     # the model is the reference: each disagreement is a failing input
     for t in acc.ties[:50]:
         acc.violations.append(dict(sig='conform:' + t['case']['src'] + ':' + t['case'].get('data', t['case'].get('obj', '')),
@@ -154,7 +194,7 @@ def run(tier, seed):
              'grammar with values, canonical encodings and mutations. distinct = (suite, construct shape, op, outcome class)',
         fragment='primitives proved against the arithmetic specification (props/C03.v); composites, strings, floats and '
                  'mappings pinned by correspondence with the extracted model',
-        partial=['C03 floats: no theorem yet (model/Float.v is validated by correspondence on bit patterns only)',
+        partial=['C03 floats: Float16 exhaustively (FloatFacts); single and double precision by correspondence on bit patterns only',
                  'C03 composites: relation enc c v bs not yet stated; concatenation order is covered by C01 theorems'],
         assumptions=['CPython struct/int.to_bytes semantics as read into the model'])
 
